@@ -69,10 +69,12 @@ def make_input(seed, k):
         pred = np.array([1, 1, 1, 1, 0, 0, 0, 0, 0, 3, 3, 3], dtype=np.uint8)
         if k % 12 == 9:
             pred, refa = refa.copy(), pred.copy()
+    # every fifth input comes in a non-native byte order (as read from big-endian files), which must be left as it is
+    udt = np.dtype(np.uint16).newbyteorder(">") if k % 5 == 2 else pred.dtype
     return {
-        "UNMATCHED_INSTANCE": (pred, refa),
+        "UNMATCHED_INSTANCE": (pred.astype(udt), refa.astype(udt)),
         "SEMANTIC": (pred.astype([np.uint8, np.int16][k % 2]), refa.astype([np.uint8, np.int16][k % 2])),
-        "MATCHED_INSTANCE": (gen.make_matched(pred, refa, r), refa),
+        "MATCHED_INSTANCE": (gen.make_matched(pred, refa, r).astype(udt), refa.astype(udt)),
     }
 
 
